@@ -9,11 +9,13 @@
    spec_ok is written from the property text; it only relates the observations of the original and of the
    rewritten pipeline to each other (never calls `run` / `nrun` / `apply_op`). *)
 From Verif Require Export Base.Prelude Base.StrOrd Base.StrUtil Base.Graph Model.Pipe Model.Rewrite Corr.PipeObs.
+From Verif Require Export Corr.Run_C10Map.
 
 Record rcall := { c_o0 : str; c_kw0 : alist; c_o1 : str; c_kw1 : kwargs }.
 
 Inductive case :=
-| CRewrite (p : pipeline) (ops : list op) (calls : list rcall).
+| CRewrite (p : pipeline) (ops : list op) (calls : list rcall)
+| CMap (c : mcase).
 
 Definition body := Sym.body.
 Definition pick := Sym.pick.
@@ -74,6 +76,7 @@ Definition run (c : case) : sx :=
             SL [sx_ok; SL (map sx_struct trace);
                 SL (map (fun c => SL (sx_res (run_orig p c) ++ sx_res (nrun body pick p' (c_o1 c) (c_kw1 c)))) calls)]
         end
+  | CMap mc => run_map mc
   end.
 
 (* ------------------------------------------------------------------ the executable statement *)
@@ -305,4 +308,5 @@ Definition spec_ok (c : case) (obs : sx) : bool :=
                       && forallb (fun co => call_ok p rho spF (fst co) (snd co)) (combine calls cobs))
         | _ => false
         end
+  | CMap mc => spec_map mc obs
   end.
